@@ -1,12 +1,12 @@
 package main
 
 import (
-	"os"
-	"strings"
 	"fmt"
 	"go/constant"
 	"go/token"
 	"go/types"
+	"os"
+	"strings"
 	"sync"
 
 	"golang.org/x/tools/go/ssa"
@@ -23,14 +23,14 @@ type fnInfo struct {
 }
 
 type Program struct {
-	ssa      *ssa.Program
-	pkgs     map[string]*ssa.Package
-	fnInfos  sync.Map // *ssa.Function -> *fnInfo
-	initPkgs []*ssa.Package
+	ssa       *ssa.Program
+	pkgs      map[string]*ssa.Package
+	fnInfos   sync.Map // *ssa.Function -> *fnInfo
+	initPkgs  []*ssa.Package
 	harnessFn sync.Map
-	implMu   sync.Mutex
-	impl     map[[2]types.Type]bool
-	sizes    types.Sizes
+	implMu    sync.Mutex
+	impl      map[[2]types.Type]bool
+	sizes     types.Sizes
 }
 
 func (p *Program) info(fn *ssa.Function) *fnInfo {
@@ -143,12 +143,13 @@ type pathEnd struct {
 }
 
 type Exec struct {
-	P      *Program
-	H      *Harness
-	sv     *PathSolver
-	prefix []int
-	trace  []int
-	tpos   int
+	syncMaps map[*Value]*MapV // model of sync.Map objects, by address
+	P        *Program
+	H        *Harness
+	sv       *PathSolver
+	prefix   []int
+	trace    []int
+	tpos     int
 
 	gs      []*G
 	cur     *G
@@ -172,36 +173,36 @@ type Exec struct {
 	notes    []string
 	res      *PathResult
 
-	pc         []*Term
-	model      map[string]uint64
-	modelPC    int
-	forceNext  *G
-	initDone   bool
-	known      []knownRegion
-	quiesceReq bool
-	advancing  map[*G]*advState
-	stallFunc  string
-	stallFuncK int
-	stallFuncN int
-	stallFuncG *G
-	natTimers  map[*Value]*Timer
-	sleeping   map[*G]*bool
-	bgCtx      *ctxObj
-	wgs        map[*Value]*int
-	onces      map[*Value]*int
-	randIDs    []*Term
+	pc             []*Term
+	model          map[string]uint64
+	modelPC        int
+	forceNext      *G
+	initDone       bool
+	known          []knownRegion
+	quiesceReq     bool
+	advancing      map[*G]*advState
+	stallFunc      string
+	stallFuncK     int
+	stallFuncN     int
+	stallFuncG     *G
+	natTimers      map[*Value]*Timer
+	sleeping       map[*G]*bool
+	bgCtx          *ctxObj
+	wgs            map[*Value]*int
+	onces          map[*Value]*int
+	randIDs        []*Term
 	allowIDCollide bool
-	raised     bool
-	panicWhere string
-	encoded    map[*Str][]*Term
-	macs       []*macRec
-	keyPairs   []*keyPair
-	signedMsgs []*signedRec
-	randReads  [][]*Term
-	concRandom bool
-	concRandN  uint64
-	gMark      int
-	quiesced   map[*G]bool
+	raised         bool
+	panicWhere     string
+	encoded        map[*Str][]*Term
+	macs           []*macRec
+	keyPairs       []*keyPair
+	signedMsgs     []*signedRec
+	randReads      [][]*Term
+	concRandom     bool
+	concRandN      uint64
+	gMark          int
+	quiesced       map[*G]bool
 }
 
 func (x *Exec) end(status, msg string) {
